@@ -15,6 +15,12 @@ Tie to the code on every run (observation level: public constructors only)
                     × position of the missing name × data shape × section layout, each with its legal twin
   whole calls       components built inline, then `RTFDocument(...)`, then `rtf_encode()`: the stage at which the
                     exception appears is recorded (“up front” = before any document object exists)
+  histories         (`c19_hist.py`) sequences of constructor calls in ONE process, every call judged against the
+                    state of the world AT THAT CALL: `RTFFigure(figures=…)` with files created / replaced / deleted /
+                    renamed and the working directory changed in between (absolute and relative paths, str and Path,
+                    scalar and list) against `Model.ValidateHist.run`; the same or an ==-equal value presented to
+                    fields with different rules, valid-then-invalid on one field, the same grouping names against
+                    frames with and without the column — a validator that remembers an earlier verdict is caught
 π = exception class mapped to {ok, ValueError (pydantic ValidationError included), FileNotFoundError, other}.
 For every case the driver returns the model's outcome and the Lean-defined specification verdict
 (reject / notFound / rejectAny / accept / free); `fail` = implementation contradicts the verdict,
@@ -35,12 +41,19 @@ RULE = ("constructor calls of the 8 attribute components, RTFPage, RTFFigure, RT
         "many rows and frames without columns (single frame or any section of a 1–3 section list), grouping options "
         "as string or list with the missing name first / inner / last / alone; non-trivial = the specification "
         "verdict is not `free` (reject, notFound, rejectAny or accept); distinct by (constructor, fields, shapes, "
-        "position class of the bad value, the bad value, data shape, verdict)")
+        "position class of the bad value, the bad value, data shape, verdict); histories of 1–14 steps run in one fresh "
+        "process each: RTFFigure calls with file-system events in between (create / new content / delete / rename to "
+        "another name, suffix, directory or onto an existing file / chdir; paths absolute or relative, str or Path, "
+        "with ./ and .. spellings, scalar or in a list of 1–3), and sequences of 2–10 stateless constructor calls "
+        "sharing a value, a field or grouping names; every call judged in the state at that call; a history is "
+        "non-trivial when one of its calls has a verdict other than `free`, distinct by (scenario, verdict sequence, steps)")
 TRUSTED = [
     "Lean 4.33 kernel; axioms ⊆ {propext, Classical.choice, Quot.sound} (audited per theorem on every run)",
     "Lean compiler for the driver executable (compiled evaluation agrees with kernel reduction)",
     "harness/translate.py prints the code tables it read (cross-checked per run through op c19_tables)",
     "the harness serialises the Python argument values faithfully (floats as exact rationals)",
+    "histories: the harness performs the file-system events it reports (cross-checked per call: os.path.exists of "
+    "every path and the final directory listing against the Lean state, machinery error otherwise)",
 ]
 MANIFEST = dict(
     text="Lean theorems over the validator model: for every validated attribute field, every accepted shape and "
@@ -57,7 +70,13 @@ MANIFEST = dict(
          "frame carries column names and height separately and the theorems state that only the names matter. "
          "pydantic's type coercion and error collection are modelled only as far as the outcome class depends on "
          "them; numeric strings, DataFrame-valued attributes and default values are outside the model (defaults are "
-         "exercised by every constructor call of the valid stream).",
+         "exercised by every constructor call of the valid stream). "
+         "Existence of a figure file is an input of each call in the model (`FigArgs.figures` = exists at the time of "
+         "the call); `Model/ValidateHist.lean` + `Props/C19hist.lean` make the time explicit: folding the construction "
+         "over any history of file-system events and calls, each verdict is that of the state reached at the call "
+         "(earlier calls, accepted or refused, do not enter), and the check runs such histories — and histories of "
+         "stateless calls sharing values, fields, grouping names — in one process each, so a validator that caches "
+         "a verdict per path / value / name is seen. Mutating a component object after construction is out of scope.",
     technique="Lean 4 proof (induction over nested lists + kernel-decided table facts) + differential "
               "correspondence model/implementation on constructor calls",
     design="7/C19",
@@ -65,7 +84,11 @@ MANIFEST = dict(
 ASSUME = [
     "pydantic v2 semantics: before-validators, lax coercion, ValueError→ValidationError wrapping, other exceptions escape",
     "component defaults are valid (every valid-stream call exercises them)",
-    "os.path existence of figure files is a parameter (list of exists flags)",
+    "os.path existence of figure files is a parameter of each call (exists flags at the time of the call; in "
+    "histories computed by the Lean file-system model from the events before the call)",
+    "an embeddable image format is decided by the file name's suffix (.png .jpg .jpeg .emf, any case); the mimetypes "
+    "fallback is not modelled (the histories use no suffix it maps to PNG/JPEG); an existing file of another format "
+    "is outside the statement (verdict free, compared with the model only)",
 ]
 
 # ------------------------------------------------------------------ documented legal values (NOT read from the code)
@@ -912,6 +935,12 @@ def _describe(case) -> str:
         return f"{case['comp']}(" + ", ".join(f"{a}={v!r}" for a, v in kw.items()) + ")"
     if k == "page":
         return "RTFPage(" + ", ".join(f"{f}={praw(r)!r}" for f, r in case["kw"]) + ")"
+    if k == "figure_at":
+        from . import c19_hist
+
+        return c19_hist.describe_call(case, case.get("_status"))
+    if k == "hist":
+        return f"history of {len(case['steps'])} steps ({case.get('theme')}:{case.get('scenario')})"
     if k == "figure":
         parts = []
         for a in ("fig_align", "fig_pos"):
@@ -1086,6 +1115,8 @@ def corpus_cases():
         for f in sorted(d.glob("*.json")):
             c = json.loads(f.read_text())
             c.setdefault("mode", "corpus")
+            if c.get("kind") == "hist":
+                continue  # histories: run by c19_hist (one fresh process each)
             out.append(c)
     return out
 
@@ -1182,6 +1213,11 @@ def run(res: common.Result, build) -> int:
                 res.disagree(c, f"{_describe(c)}: exception raised at stage {o['stage']}, model says {d['stage']}")
         res.corr_checked += 1
         judge(res, c, o, d)
+    from . import c19_hist
+
+    n_std = len(res.failures)
+    c19_hist.run(res)
+    c19_hist.settle_standalone(res, n_std)
     if res.tier == "thorough":
         res.extra["anchored_line_coverage"] = line_coverage(cases[:4000])
     return common.finish(
@@ -1190,7 +1226,10 @@ def run(res: common.Result, build) -> int:
                     "makes field validation / component construction fail with a ValueError-class exception (never "
                     "another class), all-legal input is accepted, page / figure / document rules decided, generated "
                     "tables equal the documented value sets. Modelled tree = repaired tree (fixes d20, d25, "
-                    "figure-size-positive).")
+                    "figure-size-positive). C19hist_*: over any history of file-system events and RTFFigure calls each "
+                    "verdict is the one of the state at that call (a file missing now is refused although the same call "
+                    "was accepted before, and conversely); histories are run in one process each and every call is "
+                    "compared with that verdict.")
 
 
 def replay(payload) -> int:
@@ -1202,6 +1241,10 @@ def replay(payload) -> int:
     if case is None:
         print("replay file carries no case (proof-obligation failure): rebuild with ./check C19")
         return 1
+    if case.get("kind") == "hist":
+        from . import c19_hist
+
+        return c19_hist.replay_case(case)
     if case.get("kind") == "unit_to_nested":
         o = _unit_worker(case["raw"])
         d = common.driver_batch([dict(op="c19_to_nested", raw=case["raw"])])[0]
